@@ -16,6 +16,9 @@ func vh_C07_L2_advance_only_over_abandoned() {
 	a.useForwardTSN, a.useIForwardTSN = !il, il
 	s1, _ := a.OpenStream(1, PayloadTypeWebRTCBinary)
 	s2, _ := a.OpenStream(2, PayloadTypeWebRTCBinary)
+	ssn0 := nondetU16() // the stream has carried any number of ordered messages (wrap included)
+	s1.sequenceNumber = ssn0
+	s1.nextOrderedMID = uint32(ssn0) + 0xffff0000
 	for i := 0; i < 3; i++ {
 		st := s1
 		if i == 1 {
@@ -62,6 +65,8 @@ func vh_C07_L2_advance_only_over_abandoned() {
 	if adv > 0 {
 		var fwdStreams [3]bool // stream ids 1, 2 seen in the chunk
 		var newCum uint32
+		var seq1 uint16
+		var mid1 uint32
 		found := false
 		for _, raw := range vWriterWake(a) {
 			p := vDecode(raw)
@@ -72,6 +77,9 @@ func vh_C07_L2_advance_only_over_abandoned() {
 					for _, e := range x.streams {
 						vassert(e.identifier == 1 || e.identifier == 2, "only existing streams are named")
 						fwdStreams[e.identifier] = true
+						if e.identifier == 1 {
+							seq1 = e.sequence
+						}
 					}
 				case *chunkIForwardTSN:
 					found, newCum = true, x.newCumulativeTSN
@@ -79,6 +87,9 @@ func vh_C07_L2_advance_only_over_abandoned() {
 						vassert(e.identifier == 1 || e.identifier == 2, "only existing streams are named")
 						vassert(!e.unordered, "ordered messages are reported as ordered")
 						fwdStreams[e.identifier] = true
+						if e.identifier == 1 {
+							mid1 = e.messageIdentifier
+						}
 					}
 				}
 			}
@@ -88,6 +99,17 @@ func vh_C07_L2_advance_only_over_abandoned() {
 		want1 := abandoned[0] || (adv >= 3 && abandoned[2])
 		want2 := adv >= 2 && abandoned[1]
 		vassert(fwdStreams[1] == want1 && fwdStreams[2] == want2, "exactly the streams with a skipped ordered message are listed")
+		if want1 {
+			last := uint16(0) // stream 1 carries chunks 0 and 2: messages ssn0 and ssn0+1
+			if adv >= 3 && abandoned[2] {
+				last = 1
+			}
+			if il {
+				vassert(mid1 == uint32(ssn0)+0xffff0000+uint32(last), "the largest skipped MID is reported (serial order, also across the wrap)")
+			} else {
+				vassert(seq1 == ssn0+last, "the largest skipped SSN is reported (serial order, also across the wrap)")
+			}
+		}
 	}
 	vcover("end")
 }
